@@ -282,9 +282,144 @@ def decode_model(r):
     return out
 
 
+RUN_FIELDS = ("dim", "config", "height", "diameter", "yaml", "k_s0", "t_tot", "start", "stop", "rate", "holds",
+              "cnTemp", "Frand", "runs")
+
+
 def source_key(case):
-    """cache key: source fingerprint + case"""
+    """cache key: source fingerprint (all *.py + YAML of the package) + the fields of the case that
+    determine the run (labels such as `kind` are left out, so properties share runs)"""
     h = hashlib.sha256()
     h.update(core.repo_fingerprint().encode())
-    h.update(json.dumps(case, sort_keys=True, default=str).encode())
+    canon = {k: case.get(k) for k in RUN_FIELDS}
+    canon["config"] = canon["config"] or "shelf"
+    h.update(json.dumps(canon, sort_keys=True, default=str).encode())
     return h.hexdigest()
+
+
+# ---------------------------------------------------------------------------
+# cache of real runs (shared by the Snowing properties within one source state)
+# ---------------------------------------------------------------------------
+CACHE_DIR = core.VERIF / ".cache"
+
+
+def run_real_cached(case):
+    """`run_real` through a file cache keyed by SHA-256(source files + YAML + case).
+    `VERIF_NOCACHE=1` disables it."""
+    if os.environ.get("VERIF_NOCACHE"):
+        return run_real(case)
+    key = source_key(case)
+    path = CACHE_DIR / (key + ".json")
+    if path.exists():
+        try:
+            return json.loads(path.read_text())
+        except Exception:
+            pass
+    obs = run_real(case)
+    try:
+        CACHE_DIR.mkdir(parents=True, exist_ok=True)
+        tmp = path.with_suffix(".tmp%d" % os.getpid())
+        tmp.write_text(json.dumps(obs))
+        os.replace(tmp, path)
+    except Exception:
+        pass
+    return obs
+
+
+# ---------------------------------------------------------------------------
+# independent oracles used by the predicates (nothing here calls the model)
+# ---------------------------------------------------------------------------
+def simpson_weights(N, h):
+    """closed-form weights of scipy.integrate.simpson on N >= 3 uniformly spaced points
+    (the `simpsonW` of SnowProofs/Lemmas/SimpsonArr.lean): odd N: h/3*[1,4,2,...,4,1];
+    even N: composite rule on the first N-1 points + end correction, last three weights
+    5h/4, h, 5h/12."""
+    assert N >= 3
+    if N % 2 == 1:
+        w = [0.0] * N
+        for j in range(N):
+            w[j] = h / 3 if j in (0, N - 1) else (4 * h / 3 if j % 2 == 1 else 2 * h / 3)
+        return np.array(w)
+    w = list(simpson_weights(N - 1, h)) + [0.0]
+    w[N - 1] = 5 * h / 12
+    w[N - 2] = h
+    w[N - 3] = 5 * h / 4
+    return np.array(w)
+
+
+def trapezoid_weights(N, h):
+    w = np.full(N, h)
+    w[0] = w[-1] = h / 2
+    return w
+
+
+def kb_of(const, xi):
+    return 10.0 ** (-(const["a"] + xi * const["c"]))
+
+
+def T_eq_l_of(const):
+    return const["T_eq"] + 273.15 - const["depression"]
+
+
+def rate_field(T, const, xi):
+    """J = kb (T_eq_l - T)^b on the supercooled nodes, 0 elsewhere (T in K)"""
+    T = np.asarray(T, dtype=float)
+    Tl = T_eq_l_of(const)
+    J = np.zeros_like(T)
+    m = T < Tl
+    J[m] = kb_of(const, xi) * (Tl - T[m]) ** const["b"]
+    return J
+
+
+def dt_1d(const):
+    dz = const["height"] / 30
+    return 0.4 * dz**2 / (const["lambda_i"] / (const["cp_i"] * const["rho_l"]))
+
+
+def n_steps(t_tot, dt):
+    return int(math.ceil(t_tot / dt)) + 1
+
+
+def programmed_profile(prog, dt):
+    """the programmed shelf temperature (deg C) per step – `OperatingConditions.tempProfile`,
+    the function C05 is about"""
+    return [float(x) for x in make_opcond(prog).tempProfile(dt)]
+
+
+# (height, k_s0, rate, steps that suffice for complete freezing) – calibrated 1D programs with
+# <= 10 000 steps, so that every step is recorded
+CAL_1D = [
+    (0.02, 400, 0.5, 7600), (0.02, 2000, 0.5, 5600), (0.03, 400, 0.05, 8900), (0.03, 400, 0.5, 6500),
+    (0.03, 2000, 0.05, 7600), (0.03, 2000, 0.5, 5200), (0.05, 100, 0.05, 9400), (0.05, 100, 0.5, 8800),
+    (0.05, 400, 0.05, 6600), (0.05, 400, 0.5, 5600), (0.05, 2000, 0.05, 5700), (0.05, 2000, 0.5, 4700),
+]
+
+ALPHA_MAX_DEFAULT = 2.25 / (2108 * 1000)
+
+
+def dt_1d_default(height):
+    return 0.4 * (height / 30) ** 2 / ALPHA_MAX_DEFAULT
+
+
+def dt_2d(const):
+    dz = const["height"] / 30
+    dr = (const["diameter"] / 2) / 15
+    alpha_max = const["lambda_i"] / (const["cp_i"] * const["rho_l"])
+    return (0.4 / alpha_max) * (dz**2 * dr**2) / (dr**2 + dz**2)
+
+
+def dt_2d_default(height, diameter):
+    dz = height / 30
+    dr = (diameter / 2) / 15
+    return (0.4 / ALPHA_MAX_DEFAULT) * (dz**2 * dr**2) / (dr**2 + dz**2)
+
+
+def record_inputs(case):
+    """constants and the kinetic draw, read from a freshly built (not run) Snowing object –
+    what the model receives as input"""
+    try:
+        S = make_snowing(case)
+    except Exception as e:
+        return {"raise": core.exc_class(e)}
+    const, visf = constants(S)
+    return {"raise": None, "const": const, "visf": visf, "xi": recorded_xi()}
